@@ -83,12 +83,16 @@ def build_simgo(log):
     return exe
 
 
-def prune_cache(keep=6):
+def prune_cache(keep=6, min_age_s=3 * 3600):
+    """Drop old build trees: beyond the `keep` most recently used ones, and only when not used for a few hours
+    (another check running at the same time — e.g. against a patched copy of the tree — may be executing one)."""
     try:
         ents = [os.path.join(CACHE, e) for e in os.listdir(CACHE) if e.startswith("tree-")]
         ents.sort(key=lambda p: os.path.getmtime(p), reverse=True)
+        now = time.time()
         for p in ents[keep:]:
-            shutil.rmtree(p, ignore_errors=True)
+            if now - os.path.getmtime(p) > min_age_s:
+                shutil.rmtree(p, ignore_errors=True)
     except OSError:
         pass
 
